@@ -212,4 +212,49 @@ func init() {
 				ruleChainOrder(c, a)
 			})
 		})
+	register("C16",
+		"Decides that the two ways a configuration reaches a running object agree: NewServer and Update compute the same value from the option for every field both assign (only the documented restart-only fields are construction-only); main.update applies every section of the configuration just read and then starts the servers; every registry's reset removes names that disappeared (or replaces the collection wholesale); surviving caches are kept; every configured upstream and compress profile is replaced by one freshly built from the new options; only instances no longer in service are destroyed; removed servers are closed. Differential behaviour of two live processes and in-flight requests during the swap are not decided.",
+		nil, func(c *Ctx) {
+			ruleCtorUpdateAgree(c)
+			ruleSectionsApplied(c)
+			ruleResetPrunes(c)
+			ruleKeepCache(c)
+			ruleUpstreamSwap(c)
+			ruleCompressReset(c)
+			ruleServersReset(c)
+			ruleUpstreamCtor(c)
+		})
+	register("C19",
+		"Decides pike's wiring of the health-checked pool (the pool itself lives in the dependency github.com/vicanso/upstream): servers marked backup are registered as backups and only those, each with its own address; policy and ping path come from the configuration; a health check runs before a pool is published and periodically after; a reload never stops the health check of an instance that stays in service; the proxy target is only what the pool's Next() returned and 'no healthy server' is a 5xx error. The fault-sequence quantifier (up/down timing, recovery, even distribution) is run-time behaviour of the dependency and the network: not applicable.",
+		[]string{"github.com/vicanso/upstream: Next() returns only servers whose last health check passed, backups only when no primary is healthy"}, func(c *Ctx) {
+			withAnchors(c, func(a *serverAnchors) {
+				ruleUpstreamCtor(c)
+				ruleTargetPicker(c)
+				ruleUpstreamSwap(c)
+				ruleProxyMiddleware(c, a, set("proxy-resolution", "forward-once"))
+			})
+		})
+	register("C17",
+		"Decides that Validate runs field validation first and checks each of the four reference relations on exactly the (referrer field, referenced name) pair, per referrer, returning its error; that Write stores the YAML of the configuration only after Validate returned nil and never reports success without writing; that no configuration field is lost or merged by the YAML/JSON field table; that every validate tag is registered and every place that leniently parses a configuration field uses the parser its validator uses. Quoting behaviour of the YAML library is not decided.",
+		nil, func(c *Ctx) {
+			ruleValidateRefs(c)
+			ruleWriteValidates(c)
+			ruleYAMLTable(c)
+			ruleValidatorsAgree(c)
+		})
+	register("C20",
+		"Decides lock discipline for all shared mutable state reachable from main (request, purge, admin and reload paths): every access to a guarded field (entry state, shard LRU, server settings, location list) holds the owner's lock in a sufficient mode, locally or through every caller; every lock is released on every return; the lock-order graph is acyclic; fields read without a lock are written only while their object is private to its constructor; a published response is never written; memory from a sync.Pool never escapes into keys, bodies or records; the entry lookup is made under the write lock and a woken waiter re-reads under the lock. Race-detector stress and 'the process does not crash' over schedules are not applicable to static analysis.",
+		nil, func(c *Ctx) {
+			withAnchors(c, func(a *serverAnchors) {
+				ruleLockset(c)
+				ruleImmutableAfterConstruction(c)
+				rulePublishedResponse(c, a)
+				rulePooledBytes(c)
+				ruleRegistriesTyped(c)
+				ruleLockedWrapper(c, a.cacheA)
+				ruleGetOrCreate(c)
+				ruleCompletionPaths(c, a.cacheA, set("locked"))
+				ruleEntryWriters(c, a.cacheA)
+			})
+		})
 }
